@@ -63,6 +63,8 @@ C_STAKE3 = consts(O3, sets=2, adds=[1, 30], maxadds=1)
 Q, T, QT = ["quick"], ["thorough"], ["quick", "thorough"]
 ENDBLOCK_MC = [
     dict(name="mcdev", tiers=["dev"], consts=C_DEV, overrides={"Stake": "Stake2"}),
+    dict(name="mcdevgov", tiers=["dev"], consts=C_GOV, overrides={"Stake": "Stake2"}),
+    dict(name="mcdevstake", tiers=["dev"], consts=C_STAKE, overrides={"Stake": "StakeBig"}),
     dict(name="mccall", tiers=QT, consts=C_CALL, overrides={"Stake": "Stake2"}),
     dict(name="mcbatch", tiers=QT, consts=C_BATCH, overrides={"Stake": "Stake2"}),
     dict(name="mcprune", tiers=QT, consts=C_PRUNE, overrides={"Stake": "Stake2"}),
@@ -82,6 +84,8 @@ ENDBLOCK_MC = [
 ALL3 = ["eth", "tron", "bsc"]
 ENDBLOCK_GEN = [
     cfg("gendev", ["dev"], C_DEV, "Stake2", ["eth"], shards=8),
+    cfg("gendevgov", ["dev"], C_GOV, "Stake2", ["eth"], shards=8),
+    cfg("gendevstake", ["dev"], C_STAKE, "StakeBig", ["eth"], shards=8),
     # quick: eth, rejected operations sampled
     cfg("gencall", Q, C_CALL, "Stake2", ["eth"], rej_sample=3),
     cfg("genbatch", Q, C_BATCH, "Stake2", ["eth"], rej_sample=3),
